@@ -286,7 +286,11 @@ func recvTypeName(e ast.Expr) string {
 
 func funcKey(pkgPath string, fd *ast.FuncDecl) string {
 	if fd.Recv != nil && len(fd.Recv.List) > 0 {
-		return pkgPath + "." + recvTypeName(fd.Recv.List[0].Type) + "." + fd.Name.Name
+		tn := recvTypeName(fd.Recv.List[0].Type)
+		if old, ok := refType[pkgPath+"."+tn]; ok {
+			tn = old // a renamed type: its methods keep their reference keys
+		}
+		return pkgPath + "." + tn + "." + fd.Name.Name
 	}
 	return pkgPath + "." + fd.Name.Name
 }
@@ -1658,6 +1662,7 @@ func dumpFuncs(repo string) {
 		if rel != "." {
 			pkg += "/" + filepath.ToSlash(rel)
 		}
+		keys = append(keys, declLines(fset, pkg, f)...)
 		for _, d := range f.Decls {
 			if gd, ok := d.(*ast.GenDecl); ok && gd.Tok == token.TYPE {
 				for _, sp := range gd.Specs {
